@@ -146,7 +146,8 @@ def display : Value → String
   | .array _ xs => "{" ++ displayList xs ++ "}"
   | .timestamp d s f =>
     let (y, mo, dd) := CivilE.civilOfDays d
-    CivilE.pad 4 y ++ "-" ++ CivilE.pad 2 mo ++ "-" ++ CivilE.pad 2 dd ++ " " ++
+    -- chrono `write_year`: four digits inside 0..=9999, otherwise an explicit sign (`{:+05}`)
+    (if y > 9999 then "+" else "") ++ CivilE.pad 4 y ++ "-" ++ CivilE.pad 2 mo ++ "-" ++ CivilE.pad 2 dd ++ " " ++
       CivilE.pad 2 (s / 3600) ++ ":" ++ CivilE.pad 2 (s / 60 % 60) ++ ":" ++ CivilE.pad 2 (s % 60 + f / 1000000000) ++ "." ++ CivilE.pad 3 (f / 1000000 % 1000)   -- a leap second prints as 60
   | .interval ns => displayInterval ns
 def displayList : List Value → String
